@@ -19,6 +19,14 @@ def load_converter():
     raise RuntimeError("to_20210209 not found")
 
 
+def shuffled(rng, items):
+    """the hypothesis is about WHICH prefixes a map has, not their order: an own prefix may precede an inherited one (lxml lists nested
+    declarations that way)"""
+    if rng.random() < 0.5:
+        rng.shuffle(items)
+    return items
+
+
 def rand_closed_tree(rng, pns=(), depth=0, maxdepth=3):
     ns = dict(pns)
     for _ in range(rng.choice([0, 0, 1, 2])):
@@ -33,7 +41,7 @@ def rand_closed_tree(rng, pns=(), depth=0, maxdepth=3):
     kids = [rand_closed_tree(rng, ns.items(), depth + 1, maxdepth) for _ in range(rng.randint(0, 3) if depth < maxdepth else 0)]
     return impl.T(rng.choice(["a", "title", "para", "é", "x-y", gen.rand_text(rng, 3) or "n"]), rng.choice([None, "", gen.rand_text(rng, 10)]), kids, d(),
                   tail=rng.choice([None, None, "", "\n  ", gen.rand_text(rng, 4)]), prefix=rng.choice([None, None] + list(ns.keys())),
-                  extras=d(), nsmap=list(ns.items()))
+                  extras=d(), nsmap=shuffled(rng, list(ns.items())))
 
 
 def walk(n):
@@ -60,6 +68,15 @@ def run(ctx):
             nodes = [x for _, x in gen.nodes_of(t) if x[7]]
             if nodes:
                 x = rng.choice(nodes); x[7].pop(rng.randrange(len(x[7]))); closed = False
+        dup_ids = set()
+        if rng.random() < 0.12:
+            # ids are caller-supplied strings and need not be unique: two siblings (or any two nodes) may carry the same one
+            withkids = [x for _, x in gen.nodes_of(t) if len(x[8]) >= 2]
+            if withkids:
+                par = rng.choice(withkids)
+                a, b = rng.sample(par[8], 2)
+                a[0] = b[0] = f"same-{rng.randrange(1000)}"
+                dup_ids.add(a[0])
         impl.reset()
         root = impl.build(t)
         orig = impl.snapshot(root)
@@ -82,7 +99,7 @@ def run(ctx):
                     for n in walk(back):
                         if any(c.parent is not n for c in n.children):
                             fails.append({"case": case, "what": "a parent link is not set after loading"}); break
-                        if Node.get_node_instance(n.id) is not n:
+                        if n.id not in dup_ids and Node.get_node_instance(n.id) is not n:
                             fails.append({"case": case, "what": "a loaded node is not registered under its id"}); break
             if impl.snapshot(root) != orig:
                 fails.append({"case": case, "what": "to_json changed the tree"})
